@@ -330,10 +330,14 @@ theorem SameProcs.notifyFailure (w : WorkerSt) (a t : Pid) : SameProcs w (w.noti
   unfold WorkerSt.notifyFailure
   split
   · split
-    · exact (SameProcs.modProc w a (fun x => { x with awaitFailed := sinsert x.awaitFailed t }) (fun _ => rfl)).trans
-        (SameProcs.wakeSelecting _ a)
+    · refine (SameProcs.modProc w a _ ?_).trans (SameProcs.wakeSelecting _ a)
+      intro x; rfl
     · exact SameProcs.refl w
   · exact SameProcs.refl w
+
+theorem SameProcs.notifyPending (w : WorkerSt) (a t : Pid) : SameProcs w (w.notifyPending a t) := by
+  unfold WorkerSt.notifyPending
+  exact SameProcs.modProc w a _ (fun _ => rfl)
 
 theorem SameProcs.notifyResult (w : WorkerSt) (a t : Pid) (r : Res) : SameProcs w (w.notifyResult a t r) := by
   cases r with
@@ -345,9 +349,9 @@ theorem SameProcs.applyResults (a : Pid) : ∀ (rs : Results) (w : WorkerSt), Sa
   | (t, some r) :: rest, w => by
     unfold QM.Sys.applyResults
     exact (SameProcs.notifyResult w a t r).trans (SameProcs.applyResults a rest _)
-  | (_, none) :: rest, w => by
+  | (t, none) :: rest, w => by
     unfold QM.Sys.applyResults
-    exact SameProcs.applyResults a rest w
+    exact (SameProcs.notifyPending w a t).trans (SameProcs.applyResults a rest _)
 
 theorem SameProcs.checkExpired (w : WorkerSt) (prog : Prog) (now : Nat) (ordQ : List Pid) :
     SameProcs w (w.checkExpired prog now ordQ) := SameProcs.of_eq rfl rfl
@@ -492,11 +496,13 @@ theorem slice_ok {router : Router} {prog : Prog} (hwf : ProgWF prog) (hz : Route
         split
         · exact slice_ok hwf hz now self fuel _ hr
         · exact ⟨rfl, selTargets_routed hz hr srcs⟩
-      · simp only []
-        split
-        · exact slice_ok hwf hz now self fuel _ hr
+      · split
         · simp [OutOK]
-        · simp [OutOK]
+        · simp only []
+          split
+          · exact slice_ok hwf hz now self fuel _ hr
+          · simp [OutOK]
+          · simp [OutOK]
 
 /-! ### executor step -/
 
